@@ -559,6 +559,14 @@ func c09Reply(e c09Elem) string {
 	return "RRpcErr"
 }
 
+// procLocked logs that the head element is handed to the monitor (with the individual answer fb).
+func (r *c09Rec) procLocked(fb string) {
+	e := r.pendEl[0]
+	r.pendEl = r.pendEl[1:]
+	r.logf("(ObsProc " + coqN(r.hid(e.h)) + " " + c09Reply(e) + ")")
+	r.logf("(Ev (Proc " + fb + "))")
+}
+
 // flushBlkLocked records a BlockNumber answer that was not followed by a NonceAt call.
 func (r *c09Rec) flushBlkLocked() {
 	if r.pendBlk != nil {
@@ -570,8 +578,7 @@ func (r *c09Rec) flushBlkLocked() {
 // procLeadingLocked logs Proc for the leading elements that need no individual query.
 func (r *c09Rec) procLeadingLocked() {
 	for len(r.pendEl) > 0 && r.pendEl[0].kind <= 1 {
-		r.logf("(Ev (Proc None))")
-		r.pendEl = r.pendEl[1:]
+		r.procLocked("None")
 	}
 }
 
@@ -581,8 +588,7 @@ func (r *c09Rec) Flush() {
 	defer r.mu.Unlock()
 	if r.actChk == 0 {
 		for len(r.pendEl) > 0 {
-			r.logf("(Ev (Proc None))")
-			r.pendEl = r.pendEl[1:]
+			r.procLocked("None")
 		}
 	}
 }
@@ -596,8 +602,7 @@ func (r *c09Rec) BatchCallContext(ctx context.Context, b []rpc.BatchElem) error 
 	r.end(true)
 	// anything left over from an earlier batch was skipped by the monitor
 	for len(r.pendEl) > 0 {
-		r.logf("(Ev (Proc None))")
-		r.pendEl = r.pendEl[1:]
+		r.procLocked("None")
 	}
 	if err != nil {
 		r.logf("(Ev BatchFail)")
@@ -661,12 +666,10 @@ func (r *c09Rec) TransactionReceipt(ctx context.Context, h common.Hash) (*types.
 	}
 	// elements before h that were skipped without an individual query
 	for len(r.pendEl) > 0 && r.pendEl[0].h != h {
-		r.logf("(Ev (Proc None))")
-		r.pendEl = r.pendEl[1:]
+		r.procLocked("None")
 	}
 	if len(r.pendEl) > 0 {
-		r.logf("(Ev (Proc (Some " + fb + ")))")
-		r.pendEl = r.pendEl[1:]
+		r.procLocked("(Some " + fb + ")")
 		r.procLeadingLocked()
 	}
 	return rc, err
